@@ -3,7 +3,7 @@ from registry_common import COMMON_ASSUME
 ENTRY = dict(
         title="Only intact, correctly addressed frames are delivered",
         design_ref="DESIGN.md section 6 / C01",
-        prop_modules=["C01", "C01Session", "C01Twins", "TieFrame", "TieReader"],
+        prop_modules=["C01", "C01Session", "C01Twins", "C01Chunks", "TieFrame", "TieReader"],
         technique="Lean 4 theorem over all byte streams (reader model) + correspondence with FrameReader.read on a real StreamReader + Lean judge C01.spec on implementation deliveries",
         level_text=(
             "Proof: `C01.delivered_only_if_well_formed` and `C01.holds` show for ALL byte streams that a delivery by the reader model "
